@@ -715,6 +715,38 @@ theorem overshoot_witness :
     (run (init [{ res := "r", thr := 1 }]) raceOps).tcs.map (fun t => cellOf t.cache (Val.str "a")) = [2] ∧
     ({ res := "r", thr := 1 } : Rule).thrOf (Val.str "a") = 1 := by decide
 
+/-! ## `Exit` is idempotent -/
+
+theorem find_eraseP_none (l : List Live) (id : String) (h : (l.map (·.id)).Nodup) :
+    (l.eraseP (fun e => e.id == id)).find? (fun e => e.id == id) = none := by
+  induction l with
+  | nil => rfl
+  | cons a l ih =>
+    simp only [List.map_cons, List.nodup_cons] at h
+    by_cases ha : (a.id == id) = true
+    · have hid : a.id = id := by simpa using ha
+      simp only [List.eraseP_cons, ha, cond_true]
+      apply List.find?_eq_none.mpr
+      intro e he hc
+      have : e.id = id := by simpa using hc
+      exact h.1 (List.mem_map.mpr ⟨e, he, by rw [this, hid]⟩)
+    · have ha' : (a.id == id) = false := by simpa using ha
+      simp only [List.eraseP_cons, ha', cond_false, List.find?_cons]
+      exact ih h.2
+
+/-- a second `Exit` of the same entry (sequentially, or overlapping: `sync.Once` serialises them) changes nothing: the
+unit is released exactly once.  (`St.used` keeps the ids of live entries distinct in every well-formed history.) -/
+theorem exit_twice (s : St) (id : String) (h : (s.live.map (·.id)).Nodup) : exit (exit s id) id = exit s id := by
+  cases hf : s.live.find? (fun e => e.id == id) with
+  | none =>
+    have : exit s id = s := by simp [exit, hf]
+    rw [this, this]
+  | some e =>
+    have h1 : (exit s id).live = s.live.eraseP (fun e => e.id == id) := by simp [exit, hf]
+    have h2 : (exit s id).live.find? (fun e => e.id == id) = none := by rw [h1]; exact find_eraseP_none s.live id h
+    generalize exit s id = s' at h2 ⊢
+    simp [exit, h2]
+
 /-! ## reloads (outside the property's quantifier; two sanity theorems about the executable reuse model) -/
 
 theorem itemsEq_refl (a : List (Val × Int)) : itemsEq a a = true := by
